@@ -28,7 +28,12 @@ type c01Case struct {
 func genC01(t *rapid.T) *c01Case {
 	maxEv := pt.Scale(60, 700) // thorough: enough events to cross the default dictionary limit of 501 distinct values
 	ds := gen.GenDataset(t, gen.DatasetOpts{MaxEvents: maxEv, MaxCols: 7, NullPct: 5})
-	return &c01Case{DS: ds, Layout: gen.GenLayout(t, len(ds.Events))}
+	cs := &c01Case{DS: ds, Layout: gen.GenLayout(t, len(ds.Events))}
+	if rapid.IntRange(0, 3).Draw(t, "staggered") == 0 {
+		// block- and segment-level time windows that overlap and nest
+		gen.StaggerTimestamps(t, ds.Events, cs.Layout)
+	}
+	return cs
 }
 
 // colKinds summarises which kinds of values each column holds in a set of events.
